@@ -897,6 +897,32 @@ class Engine:
             loc = args[0][1]
             old_v = self.read_loc(path, loc)
             return [(old_v, None, [(loc, args[1])])]
+        if re.search(r"option::Option::<.*>::zip(::<.*>)?$", nm) and len(args) == 2:
+            # `a.zip(b)`: Some((x, y)) if both are Some
+            OPT_ = "std::option::Option"
+            outs_ = []
+            a_, b_ = args
+            ka, kb = (a_[2] if a_[0] == "adt" else self.known_variant(path, a_)), (b_[2] if b_[0] == "adt" else self.known_variant(path, b_))
+            pa = a_[3][0] if a_[0] == "adt" and a_[2] == "Some" else ("field", ("downcast", a_, "Some"), "0")
+            pb = b_[3][0] if b_[0] == "adt" and b_[2] == "Some" else ("field", ("downcast", b_, "Some"), "0")
+            if ka == "None" or kb == "None":
+                return [(("adt", OPT_, "None", ()), None)]
+            asm_some = ([(("isvar", a_, "Some"), True)] if ka is None else []) + ([(("isvar", b_, "Some"), True)] if kb is None else [])
+            outs_.append((("adt", OPT_, "Some", (("tuple", (pa, pb)),)), asm_some or None))
+            if ka is None:
+                outs_.insert(0, (("adt", OPT_, "None", ()), [(("isvar", a_, "None"), True)]))
+            if kb is None:
+                outs_.insert(0, (("adt", OPT_, "None", ()), ([(("isvar", a_, "Some"), True)] if ka is None else []) + [(("isvar", b_, "None"), True)]))
+            return outs_
+        if re.search(r"ops::Range<.*> as std::iter::ExactSizeIterator>::len$|ops::Range<usize> as .*ExactSizeIterator>::len$", nm) and args:
+            r_ = self.deref_val(path, args[0]) if args[0][0] == "ref" else args[0]
+            if r_[0] == "adt" and str(r_[1]).endswith("ops::Range") and len(r_[3]) == 2:
+                # (a..b).len() == b.saturating_sub(a)
+                return [(("app", "saturating_sub", (r_[3][1], r_[3][0])), None)]
+        if re.search(r"ops::Range::<.*>::is_empty$", nm) and args:
+            r_ = self.deref_val(path, args[0]) if args[0][0] == "ref" else args[0]
+            if r_[0] == "adt" and str(r_[1]).endswith("ops::Range") and len(r_[3]) == 2:
+                return [(self.binop("Ge", r_[3][0], r_[3][1]), None)]
         if re.search(r"<impl bool>::then_some(::<.*>)?$", nm) and len(args) == 2:
             # `c.then_some(v)`: Some(v) if c else None
             c_ = args[0]
@@ -1327,6 +1353,45 @@ class Engine:
             self.assume(p, r, False)
             return [if_true(pt), if_false(p)]
 
+        if re.search(r"<impl bool>::then(::<.*>)?$", nm) and len(args) == 2 and self.closure_target(path, args[1], []) is not None:
+            # `c.then(|| v)`: Some(v) if c (the closure runs only then) else None
+            outs = []
+
+            def run_then(p_):
+                rs_ = self.call_closure(p_, bb, args[1], [])
+                if rs_ is None:
+                    return [finish(p_, ("adt", OPT, "Some", (("app", nm, (args[1],)),)))]
+                return [dead(sp) if r is None else finish(sp, ("adt", OPT, "Some", (r,))) for r, sp in rs_]
+            c_ = args[0]
+            if c_ == ("bool", True) or self.decide(path, c_) is True:
+                return run_then(path)
+            if c_ == ("bool", False) or self.decide(path, c_) is False:
+                return [finish(path, ("adt", OPT, "None", ()))]
+            pf = path.fork()
+            self.assume(pf, c_, False)
+            outs.append(finish(pf, ("adt", OPT, "None", ())))
+            self.assume(path, c_, True)
+            outs.extend(run_then(path))
+            return outs
+        if re.search(r"array::<impl \[.*; \d+\]>::map(::<.*>)?$|<impl \[.*; N\]>::map(::<.*>)?$", nm) and len(args) == 2 and args[0][0] == "array" and self.closure_target(path, args[1], []) is not None:
+            # `[a, b].map(f)` = `[f(a), f(b)]`, evaluated in index order
+            partial = [((), path)]
+            for el in args[0][1]:
+                nxt = []
+                for done_, p_ in partial:
+                    rs_ = self.call_closure(p_, bb, args[1], [el])
+                    if rs_ is None:
+                        return None
+                    for r, sp in rs_:
+                        if r is None:
+                            nxt.append((None, sp))
+                        else:
+                            nxt.append((done_ + (r,), sp))
+                partial = [(d_, p_) for d_, p_ in nxt if d_ is not None]
+                dead_ = [p_ for d_, p_ in nxt if d_ is None]
+                if dead_:
+                    return [dead(p_) for p_ in dead_] + ([finish(p_, ("array", d_)) for d_, p_ in partial] if False else []) if not partial else None
+            return [finish(p_, ("array", d_)) for d_, p_ in partial]
         m = re.search(r"option::Option::<.*>::(map|map_or|map_or_else|and_then|is_some_and|is_none_or|filter|unwrap_or_else|ok_or_else|or_else)(::<.*>)?$", nm)
         if m and args:
             meth = m.group(1)
